@@ -1,6 +1,7 @@
 //! C02 — stateless streams honour their documented error / absent / present contract.
 //! (The timestamp rules asserted here are re-used by C03 on its extreme-timestamp grid.)
 use crate::common::*;
+use std::cell::RefCell;
 use crate::ensure;
 use crate::sut::{err_code, mk_err, Scripted, ScriptedClock, E};
 use proptest::prelude::*;
@@ -109,14 +110,43 @@ fn vb(x: bool) -> Val {
     Val::B(x)
 }
 
-fn scripted<T: Clone + 'static>(i: &In, mk: impl Fn(&In) -> T) -> Reference<Scripted<T>> {
-    let cur = match i.cat & 3 {
+thread_local! {
+    /// 0: inputs return their scripted outcome; 1: present inputs return their *alternative* value (same category, same
+    /// timestamp, different value) - the world changed while the stream object lived on
+    static PHASE: Cell<u8> = const { Cell::new(0) };
+    /// what the long-lived stream returned under the alternative assignment (third read), if the kind supports it
+    static ALT_READ: RefCell<Option<Out>> = const { RefCell::new(None) };
+}
+/// the alternative assignment: same categories and timestamps, other values
+pub fn alt_in(i: &In) -> In {
+    In { v: i.v * 2.0 + 1.0, b: !i.b, ..*i }
+}
+pub struct Script2<T> {
+    cur: Output<T, E>,
+    alt: Output<T, E>,
+}
+impl<T: Clone> Getter<T, E> for Script2<T> {
+    fn get(&self) -> Output<T, E> {
+        if PHASE.with(|p| p.get()) == 1 {
+            self.alt.clone()
+        } else {
+            self.cur.clone()
+        }
+    }
+}
+impl<T> Updatable<E> for Script2<T> {
+    fn update(&mut self) -> NothingOrError<E> {
+        Ok(())
+    }
+}
+fn scripted<T: Clone + 'static>(i: &In, mk: impl Fn(&In) -> T) -> Reference<Script2<T>> {
+    let out = |i: &In| match i.cat & 3 {
         0 => Err(mk_err(1)),
         1 => Err(mk_err(2)),
         2 => Ok(None),
         _ => Ok(Some(Datum::new(Time(i.t), mk(i)))),
     };
-    rc_ref_cell_reference(Scripted { cur, reads: Cell::new(0) })
+    rc_ref_cell_reference(Script2 { cur: out(i), alt: out(&alt_in(i)) })
 }
 fn clock(s: &Scenario) -> Reference<ScriptedClock> {
     rc_ref_cell_reference(ScriptedClock { cur: if s.clock_ok { Ok(Time(s.clock_t)) } else { Err(mk_err(9)) }, reads: Cell::new(0) })
@@ -137,16 +167,28 @@ fn dyn_inputs<const K: usize, T: Clone + 'static>(ins: &[In], mk: fn(&In) -> T) 
 fn run_sum<const K: usize, T: Clone + Copy + core::ops::AddAssign + 'static>(ins: &[In], mk: fn(&In) -> T, val: fn(T) -> Val) -> (Out, Out) {
     let s = SumStream::new(dyn_inputs::<K, T>(ins, mk));
     let (x, y) = (s.get(), s.get());
+    PHASE.with(|p| p.set(1));
+    let z = s.get();
+    PHASE.with(|p| p.set(0));
+    ALT_READ.with(|a| *a.borrow_mut() = Some(conv(z, val)));
     (conv(x, val), conv(y, val))
 }
 fn run_product<const K: usize, T: Clone + Copy + core::ops::MulAssign + 'static>(ins: &[In], mk: fn(&In) -> T, val: fn(T) -> Val) -> (Out, Out) {
     let s = ProductStream::new(dyn_inputs::<K, T>(ins, mk));
     let (x, y) = (s.get(), s.get());
+    PHASE.with(|p| p.set(1));
+    let z = s.get();
+    PHASE.with(|p| p.set(0));
+    ALT_READ.with(|a| *a.borrow_mut() = Some(conv(z, val)));
     (conv(x, val), conv(y, val))
 }
 fn run_latest<const K: usize, T: Clone + Copy + 'static>(ins: &[In], mk: fn(&In) -> T, val: fn(T) -> Val) -> (Out, Out) {
     let s = Latest::new(dyn_inputs::<K, T>(ins, mk));
     let (x, y) = (s.get(), s.get());
+    PHASE.with(|p| p.set(1));
+    let z = s.get();
+    PHASE.with(|p| p.set(0));
+    ALT_READ.with(|a| *a.borrow_mut() = Some(conv(z, val)));
     (conv(x, val), conv(y, val))
 }
 macro_rules! nary {
@@ -167,6 +209,10 @@ macro_rules! twice {
     ($s:expr, $val:expr) => {{
         let s = $s;
         let (x, y) = (s.get(), s.get());
+        PHASE.with(|p| p.set(1));
+        let z = s.get();
+        PHASE.with(|p| p.set(0));
+        ALT_READ.with(|a| *a.borrow_mut() = Some(conv(z, $val)));
         (conv(x, $val), conv(y, $val))
     }};
 }
@@ -392,15 +438,29 @@ pub fn check_with(s: &Scenario, id: &str) -> CheckResult {
     let (lo, hi) = arity_range(s.stream);
     let hi = if matches!(s.stream, SK::SumN | SK::ProductN | SK::LatestN) { 8 } else { hi };
     assert!(s.ins.len() >= lo && s.ins.len() <= hi, "arity out of range");
+    PHASE.with(|p| p.set(0));
+    ALT_READ.with(|a| *a.borrow_mut() = None);
     let r = catch(|| eval(s));
+    PHASE.with(|p| p.set(0));
     ensure!(r.is_ok(), format!("{}/panic", site), "{:?} panicked on inputs {:?}: {}", s.stream, s.ins, r.unwrap_err());
     let (first, second) = r.unwrap();
+    let alt_read = ALT_READ.with(|a| a.borrow_mut().take());
     if s.stream == SK::DeMorgan {
         ensure!(out_same(&first, &second), format!("{}/duality", site), "not(and(a,b)) = {:?} but or(not a, not b) = {:?} for inputs {:?}", first, second, s.ins);
     } else {
         ensure!(out_same(&first, &second), format!("{}/second-read", site), "{:?}: first read {:?}, second read {:?}", s.stream, first, second);
         let want = model(s);
         ensure!(want.iter().any(|w| out_same(w, &first)), format!("{}/outcome", site), "{:?} on inputs {:?} (clock {:?}, limit {}, payload {}) returned {:?}; documented outcome: {:?}", s.stream, s.ins, if s.clock_ok { Ok(s.clock_t) } else { Err(9) }, s.limit, if s.quantity { "Quantity" } else { "f32" }, first, want);
+        // statelessness: the same stream object, read again after its inputs' values changed (categories and timestamps the
+        // same), returns what a freshly built stream returns on those inputs - no read leaves anything behind
+        if let Some(z) = alt_read {
+            let mut alt = s.clone();
+            alt.ins = s.ins.iter().map(alt_in).collect();
+            let fresh = catch(|| eval(&alt));
+            if let Ok((fresh, _)) = fresh {
+                ensure!(out_same(&z, &fresh), format!("{}/stale-after-input-change", site), "{:?}: after the inputs' values changed (same timestamps) the long-lived stream returns {:?}, a freshly built one {:?}; before the change it returned {:?}; inputs {:?}", s.stream, z, fresh, first, s.ins);
+            }
+        }
         // two-input forms agree with the n-ary ones
         if matches!(s.stream, SK::Sum2 | SK::Product2) {
             let mut n = s.clone();
